@@ -355,6 +355,22 @@ class Interp:
                 vals.append(inspect.getattr_static(c, name))
             if vals and all(v is vals[0] or (_simple(v) and v == vals[0]) for v in vals):
                 return self._class_attr(obj, obj.cands[0], name)
+            if vals and name not in ("__class__",):
+                # class-level attribute with different values: split the candidates by value (not by class)
+                groups = []
+                for c, v in zip(obj.cands, vals):
+                    for g in groups:
+                        if _simple(v) and _simple(g[0]) and type(v) is type(g[0]) and v == g[0]:
+                            g[1].append(c)
+                            break
+                    else:
+                        groups.append((v, [c]))
+                if len(groups) < len(obj.cands):
+                    k = self.ctx.decide(len(groups), f"{name} of {obj.name}")
+                    obj.cands = groups[k][1]
+                    if len(obj.cands) == 1:
+                        return self.getattr(self._materialise(obj), name)
+                    return self._class_attr(obj, obj.cands[0], name)
             obj = self.force(obj)
         if isinstance(obj, SObj):
             v = self.field(obj, name)
@@ -898,6 +914,9 @@ class Interp:
             cur = env.lookup(t.id)
             if isinstance(cur, list) and isinstance(st.op, ast.Add):
                 rhs = self.eval(st.value, env)
+                if isinstance(rhs, models.SList):
+                    self._store_name(env, t.id, models.slist_binop(self, ast.Add, cur, rhs))
+                    return
                 rhs = self.iterate(rhs)
                 cur.extend(rhs)  # in place, like list.__iadd__
                 return
@@ -1362,10 +1381,12 @@ class Interp:
         rec(0, env)
 
     def e_ListComp(self, n, env):
-        if self.registry is not None:
-            h = self.registry.comp_handler(self, n, env)
-            if h is not None:
-                return h
+        if len(n.generators) == 1 and isinstance(n.generators[0].iter, ast.Name | ast.Subscript | ast.Attribute):
+            it = self.eval(n.generators[0].iter, env)
+            if isinstance(it, models.SList):
+                from . import slist
+
+                return slist.comprehension(self, n, env, it)
         out = []
         self._comp(n.generators, env, lambda e: out.append(self.eval(n.elt, e)))
         return out
